@@ -7,4 +7,5 @@ EXTRA_SPECS = [
     ("CHUNK_TYPE_CHANGE", "rust/automerge/src/storage/chunk.rs", r"ChunkType::Change => (\d+),", "nat"),
     ("CHUNK_TYPE_COMPRESSED", "rust/automerge/src/storage/chunk.rs", r"ChunkType::Compressed => (\d+),", "nat"),
     ("CHUNK_TYPE_BUNDLE", "rust/automerge/src/storage/chunk.rs", r"ChunkType::Bundle => (\d+),", "nat"),
+    ("CONCURRENCY_MAGIC_BYTES", "rust/automerge/src/types.rs", r"const CONCURRENCY_MAGIC_BYTES: \[u8; 4\] = (\[[^\]]*\]);", "bytes"),
 ]
